@@ -49,45 +49,97 @@ observation by the same yardstick the theorem uses). -/
 theorem C14_oracle_sound (s b : Level) (g : Option Level) : holdsMerge s b g (mergeHeader s b g) = true := by
   simp [holdsMerge, C14_resolve]
 
-theorem pickInt_rec (s gv d : Int) :
-    pickInt s (if gv == 0 then d else gv) none d = pickInt s 0 (some gv) d := by
+theorem pickInt_rec (s b gv d : Int) :
+    pickInt s (if b != 0 then b else if gv == 0 then d else gv) none d = pickInt s b (some gv) d := by
   unfold pickInt
-  by_cases hs : s = 0 <;> by_cases hg : gv = 0 <;> by_cases hd : d = 0 <;> simp [hs, hg, hd]
+  by_cases hs : s = 0 <;> by_cases hb : b = 0 <;> by_cases hg : gv = 0 <;> by_cases hd : d = 0 <;>
+    simp [hs, hb, hg, hd]
 
-theorem pickInt_rec0 (s gv : Int) : pickInt s gv none 0 = pickInt s 0 (some gv) 0 := by
+theorem pickInt_rec_none (s b d : Int) :
+    pickInt s (if b != 0 then b else d) none d = pickInt s b none d := by
   unfold pickInt
-  by_cases hs : s = 0 <;> by_cases hg : gv = 0 <;> simp [hs, hg]
+  by_cases hs : s = 0 <;> by_cases hb : b = 0 <;> by_cases hd : d = 0 <;> simp [hs, hb, hd]
 
-theorem pickStr_rec (s gv d : String) :
-    pickStr s (if gv == "" then d else gv) none d = pickStr s "" (some gv) d := by
+theorem pickInt_rec0 (s b gv : Int) :
+    pickInt s (if b != 0 then b else gv) none 0 = pickInt s b (some gv) 0 := by
+  unfold pickInt
+  by_cases hs : s = 0 <;> by_cases hb : b = 0 <;> by_cases hg : gv = 0 <;> simp [hs, hb, hg]
+
+theorem pickStr_rec (s b gv d : String) :
+    pickStr s (if b != "" then b else if gv == "" then d else gv) none d = pickStr s b (some gv) d := by
   unfold pickStr
-  by_cases hs : s = "" <;> by_cases hg : gv = "" <;> by_cases hd : d = "" <;> simp [hs, hg, hd]
+  by_cases hs : s = "" <;> by_cases hb : b = "" <;> by_cases hg : gv = "" <;> by_cases hd : d = "" <;>
+    simp [hs, hb, hg, hd]
 
-/-- **C14_recorded_agree_partial**: what confgen resolves from the recorded options equals what
-protogen used — proved when the metasheet has **no book-level (`#`) header settings**.
-The full statement (for every `bookMeta`) is `C14_recorded_agree_full`; whether it holds depends
-on how the `#` row is recorded (finding D11). -/
-theorem C14_recorded_agree_partial (sheetMeta : Level) (g : Option Level) :
-    confgenView (recordSheet sheetMeta) (recordBook g) = protogenView sheetMeta none g := by
-  unfold confgenView protogenView recordSheet recordBook mergeHeader
+theorem pickStr_rec_none (s b d : String) :
+    pickStr s (if b != "" then b else d) none d = pickStr s b none d := by
+  unfold pickStr
+  by_cases hs : s = "" <;> by_cases hb : b = "" <;> by_cases hd : d = "" <;> simp [hs, hb, hd]
+
+/-- **C14_recorded_agree**: what confgen resolves from the options protogen records equals what
+protogen itself used to read the sheet — for every sheet row, every book-level (`#`) row (or none)
+and every global header (or none). (Before fix D11 the `#` row was not recorded and this was false:
+see `C14_recorded_agree_without_fix_witness`.) -/
+theorem C14_recorded_agree (sheetMeta : Level) (bookMeta g : Option Level) :
+    confgenView (recordSheet sheetMeta) (recordBook g bookMeta) = protogenView sheetMeta bookMeta g := by
+  unfold confgenView protogenView recordSheet recordBook mergeBook recordGlobal mergeHeader
   cases g with
-  | none => rfl
+  | none =>
+    cases bookMeta with
+    | none => rfl
+    | some b =>
+      simp only [Option.getD, Option.map]
+      have e1 := pickInt_rec_none sheetMeta.namerow b.namerow defaultNameRow
+      have e2 := pickInt_rec_none sheetMeta.typerow b.typerow defaultTypeRow
+      have e3 := pickInt_rec_none sheetMeta.noterow b.noterow defaultNoteRow
+      have e4 := pickInt_rec_none sheetMeta.datarow b.datarow defaultDataRow
+      have e5 := pickInt_rec_none sheetMeta.nameline b.nameline 0
+      have e6 := pickInt_rec_none sheetMeta.typeline b.typeline 0
+      have e7 := pickStr_rec_none sheetMeta.sep b.sep defaultSep
+      have e8 := pickStr_rec_none sheetMeta.subsep b.subsep defaultSubsep
+      simp_all
   | some gv =>
-    simp only [Option.getD, Option.map, pickInt_rec, pickInt_rec0, pickStr_rec]
+    cases bookMeta with
+    | none =>
+      simp only [Option.getD, Option.map]
+      have e1 := pickInt_rec sheetMeta.namerow 0 gv.namerow defaultNameRow
+      have e2 := pickInt_rec sheetMeta.typerow 0 gv.typerow defaultTypeRow
+      have e3 := pickInt_rec sheetMeta.noterow 0 gv.noterow defaultNoteRow
+      have e4 := pickInt_rec sheetMeta.datarow 0 gv.datarow defaultDataRow
+      have e5 := pickInt_rec0 sheetMeta.nameline 0 gv.nameline
+      have e6 := pickInt_rec0 sheetMeta.typeline 0 gv.typeline
+      have e7 := pickStr_rec sheetMeta.sep "" gv.sep defaultSep
+      have e8 := pickStr_rec sheetMeta.subsep "" gv.subsep defaultSubsep
+      simp_all
+    | some b =>
+      simp only [Option.getD, Option.map]
+      have e1 := pickInt_rec sheetMeta.namerow b.namerow gv.namerow defaultNameRow
+      have e2 := pickInt_rec sheetMeta.typerow b.typerow gv.typerow defaultTypeRow
+      have e3 := pickInt_rec sheetMeta.noterow b.noterow gv.noterow defaultNoteRow
+      have e4 := pickInt_rec sheetMeta.datarow b.datarow gv.datarow defaultDataRow
+      have e5 := pickInt_rec0 sheetMeta.nameline b.nameline gv.nameline
+      have e6 := pickInt_rec0 sheetMeta.typeline b.typeline gv.typeline
+      have e7 := pickStr_rec sheetMeta.sep b.sep gv.sep defaultSep
+      have e8 := pickStr_rec sheetMeta.subsep b.subsep gv.subsep defaultSubsep
+      simp_all
 
-/-- the full statement of "protogen and confgen resolve identically" -/
-def C14_recorded_agree_full : Prop :=
-  ∀ (sheetMeta : Level) (bookMeta g : Option Level),
-    confgenView (recordSheet sheetMeta) (recordBook g) = protogenView sheetMeta bookMeta g
+/-- composed with `C14_resolve`: confgen's view of the recorded options is the specified resolution -/
+theorem C14_confgen_resolves (sheetMeta : Level) (bookMeta g : Option Level) :
+    confgenView (recordSheet sheetMeta) (recordBook g bookMeta) = resolved sheetMeta (bookMeta.getD {}) g := by
+  rw [C14_recorded_agree]
+  exact C14_resolve _ _ _
 
-/-- **C14_recorded_agree_witness**: the full statement is false of the model as the code stands
-(book-level `#` row with `Namerow = 2`): protogen reads row 2, confgen reads row 1. -/
-theorem C14_recorded_agree_witness : ¬ C14_recorded_agree_full := by
+/-- **C14_recorded_agree_without_fix_witness**: recording only the global header (the code before
+fix D11) does not satisfy the statement: `#` row with `Namerow = 2`. -/
+theorem C14_recorded_agree_without_fix_witness :
+    ¬ ∀ (sheetMeta : Level) (bookMeta g : Option Level),
+      confgenView (recordSheet sheetMeta) (recordGlobal g) = protogenView sheetMeta bookMeta g := by
   intro h
   have := h {} (some { namerow := 2 }) none
   exact absurd this (by decide)
 
--- non-vacuity: a non-trivial instance of the partial theorem's two sides
-example : (protogenView { namerow := 5, sep := ";" } none (some { typerow := 7, nameline := 2 })).typeRow = 7 := by decide
+-- non-vacuity: a non-trivial instance
+example : (protogenView { namerow := 5, sep := ";" } (some { noterow := 9 }) (some { typerow := 7, nameline := 2 })) =
+    { nameRow := 5, typeRow := 7, noteRow := 9, dataRow := 4, nameLine := 2, typeLine := 0, sep := ";", subsep := ":" } := by decide
 
 end TableauVerif.Props.C14
